@@ -79,7 +79,7 @@ ALPH = {
     "mat4": [NANPT, (0.0, 0.0), (1.0, 0.0), (3.0, 10.0)],
 }
 ALPH_ID = {k: i for i, k in enumerate(sorted(ALPH))}
-SHIFTS = [(7.0, -2.0), (-0.5, 123.25)]
+SHIFTS = [(7.0, -2.0), (-0.5, 123.25), (131072.0, -65536.0)]  # the last one: poses far from the origin (power-of-two offset: exact in float64)
 STD_VEC = [0.5, 1.0, 0.25]
 SCALE_VEC = [25.0, 4.0, 9.0]
 
@@ -1144,7 +1144,7 @@ def run(ctx):
             shards.append(("match", s))
 
         # ---- oks (1x1 tables)
-        shifts = SHIFTS if thorough else SHIFTS[:1]
+        shifts = SHIFTS if thorough else [SHIFTS[0], SHIFTS[2]]
         tables = [("node17", 1), ("node17", 2), ("node5", 3)] + ([("node6", 3)] if thorough else [])
         items = []
         for aname, n in tables:
